@@ -97,7 +97,6 @@ def handle (j : Json) : Except String Verdict := do
         why := s!"{what}: annotated and un-annotated reader models differ"
     match compareRead m impl with
     | .agree => pure ()
-    | .na _ => tags := "na-codec" :: tags
     | .differ w =>
       agree := false
       if sig == "" then
